@@ -359,6 +359,28 @@ def run_large(ctx, n):
     ctx.run_hypothesis(large_cases(), check, n)
 
 
+def run_huge(ctx, n):
+    """Whole-volume sized arrays (tens of millions of voxels), with plane
+    sizes that are not powers of two: checked against the vectorised exact
+    integer reference."""
+    shapes = [([1, 40, 1000, 1000], [2, 2, 2], "average"),
+              ([1, 67, 700, 690], [2, 2, 2], "stride"),
+              ([1, 35, 1031, 977], [1, 2, 2], "average")]
+    for k in range(max(1, min(n, len(shapes)))):
+        shape, factors, method = shapes[k]
+        case = {"seed": ctx.seed + k, "dtype": "uint8", "shape": shape,
+                "factors": factors, "method": method, "outside": None}
+        try:
+            check_large(ctx, case)
+        except AssertionError as exc:
+            if type(exc).__name__ != "Violation":
+                raise
+            ctx.violations.append({"sub": "huge", "case": case,
+                                   "message": str(exc)})
+            break
+        ctx.record(case, True, [method, "voxels>2^25"])
+
+
 def replay(ctx, case):
     if "seed" in case and "data" not in case:
         return check_large(ctx, case)
@@ -375,4 +397,5 @@ SUBS = [
     Sub("stride", run_method("stride"), replay, quick=1500, thorough=60000),
     Sub("unsupported", run_bad, replay, quick=800, thorough=15000),
     Sub("large", run_large, replay, quick=24, thorough=900, shards=6),
+    Sub("huge", run_huge, replay, quick=1, thorough=3, shards=1),
 ]
